@@ -13,9 +13,14 @@ import (
 	"net/netip"
 	"os"
 	"path/filepath"
+	"runtime"
+	"runtime/debug"
+	"runtime/pprof"
 	"sort"
 	"strconv"
 	"strings"
+	"sync"
+	"sync/atomic"
 
 	"github.com/scionproto/scion/pkg/addr"
 	"github.com/scionproto/scion/pkg/segment/iface"
@@ -73,9 +78,78 @@ func (s *spy) Open(l, r netip.AddrPort, c *conn.Config) (router.BatchConn, error
 }
 func (s *spy) UDPCanReuseLocal() bool { return s.reuse }
 
-// aliasSpy serves every provider created through the alias registration; its log is re-pointed
-// per router.
-var aliasSpy = &spy{underlay: aliasUL, reuse: true}
+// worker: cases are generated sequentially (all randomness from the seed) and executed by a pool
+// of workers, because building a Connector copies the 1.6 MB dataPlane value and costs ~10 ms.
+// Every worker has its own registration of the real udpip factory under its own name, with its own
+// spy, whose log is re-pointed per router.
+type worker struct {
+	alias    string
+	aliasSpy *spy
+}
+
+var workers []*worker
+
+func initWorkers() {
+	n := runtime.NumCPU()
+	if n > 12 {
+		n = 12
+	}
+	for i := 0; i < n; i++ {
+		w := &worker{alias: fmt.Sprintf("%s-%d", aliasUL, i)}
+		w.aliasSpy = &spy{underlay: w.alias, reuse: true}
+		udpip.VerifCfgRegisterAlias(w.alias, w.aliasSpy)
+		workers = append(workers, w)
+	}
+}
+
+// sink buffers what a case wants to report; replayed into the Env in case order.
+type sink struct{ acts []func(e *vlib.Env) }
+
+func (s *sink) Op(a, b, c string) { s.acts = append(s.acts, func(e *vlib.Env) { e.Op(a, b, c) }) }
+func (s *sink) Sample(x any)      { s.acts = append(s.acts, func(e *vlib.Env) { e.Sample(x) }) }
+func (s *sink) Case(a, b string, t bool) {
+	s.acts = append(s.acts, func(e *vlib.Env) { e.Case(a, b, t) })
+}
+func (s *sink) Violate(k, w string, r any) {
+	s.acts = append(s.acts, func(e *vlib.Env) { e.Violate(k, w, r) })
+}
+
+type job func(w *worker, s *sink)
+
+// runJobs executes the jobs on the worker pool and replays their reports in job order.
+func runJobs(e *vlib.Env, jobs []job) {
+	sinks := make([]*sink, len(jobs))
+	var wg sync.WaitGroup
+	next := int64(-1)
+	for _, w := range workers {
+		wg.Add(1)
+		go func(w *worker) {
+			defer wg.Done()
+			for {
+				i := int(atomic.AddInt64(&next, 1))
+				if i >= len(jobs) {
+					return
+				}
+				s := &sink{}
+				func() {
+					defer func() {
+						if x := recover(); x != nil {
+							s.Violate("harness/panic", fmt.Sprintf("PANIC in case %d: %v", i, x), nil)
+						}
+					}()
+					jobs[i](w, s)
+				}()
+				sinks[i] = s
+			}
+		}(w)
+	}
+	wg.Wait()
+	for _, s := range sinks {
+		for _, a := range s.acts {
+			a(e)
+		}
+	}
+}
 
 // ---------------------------------------------------------------------------------------------
 // configuration calls
@@ -110,6 +184,7 @@ func toks(cs []call) string {
 }
 
 type rtr struct {
+	w       *worker
 	c       *router.Connector
 	log     []opened
 	nextIf  uint16
@@ -117,11 +192,11 @@ type rtr struct {
 	firstUL map[string]string // underlay name -> kind of the call that instantiated it
 }
 
-func newRouter(rc config.RouterConfig, reuse bool) *rtr {
-	r := &rtr{nextIf: 1, firstUL: map[string]string{"udpip": "make"}}
+func newRouter(w *worker, rc config.RouterConfig, reuse bool) *rtr {
+	r := &rtr{w: w, nextIf: 1, firstUL: map[string]string{"udpip": "make"}}
 	r.c = router.NewConnector(rc, env.Features{})
 	sp := &spy{underlay: "udpip", reuse: reuse, log: &r.log}
-	aliasSpy.log = &r.log
+	w.aliasSpy.log = &r.log
 	if !router.VerifCfgSetConnOpener(r.c, "udpip", sp) {
 		panic("no udpip underlay")
 	}
@@ -150,7 +225,7 @@ func (r *rtr) apply(c call) {
 		owned := c.kind[0] == 'E'
 		prov := "udpip"
 		if strings.HasSuffix(c.kind, "2") {
-			prov = aliasUL
+			prov = r.w.alias
 		}
 		if _, ok := r.firstUL[prov]; !ok {
 			r.firstUL[prov] = map[bool]string{true: "ext", false: "nh"}[owned]
@@ -183,8 +258,8 @@ func (r *rtr) apply(c call) {
 	}
 }
 
-func build(ov [2]*int, cs []call, reuse bool, rcv, snd, batch int) *rtr {
-	r := newRouter(plainConfig(rcv, snd, batch, ov), reuse)
+func build(w *worker, ov [2]*int, cs []call, reuse bool, rcv, snd, batch int) *rtr {
+	r := newRouter(w, plainConfig(rcv, snd, batch, ov), reuse)
 	if err := r.c.CreateIACtx(localIA); err != nil {
 		panic(err)
 	}
@@ -336,7 +411,7 @@ func orderClass(cs []call) string {
 	return "range-after-internal"
 }
 
-func checkC11(e *vlib.Env, ov [2]*int, cs []call, p *pkt, ans string, aps []netip.AddrPort,
+func checkC11(e *sink, ov [2]*int, cs []call, p *pkt, ans string, aps []netip.AddrPort,
 	how string) {
 
 	s, en, ok := configured(ov, cs)
@@ -584,7 +659,7 @@ func genOverride(r *vlib.Rand) [2]*int {
 // ---------------------------------------------------------------------------------------------
 // C11 driver
 
-func opRS(e *vlib.Env, r *rtr, ov [2]*int, cs []call, p *pkt, how string) {
+func opRS(e *sink, r *rtr, ov [2]*int, cs []call, p *pkt, how string) {
 	tries := 1
 	if p.dst.class == "svc" {
 		tries = 40
@@ -614,7 +689,7 @@ func trunc(s string, n int) string {
 	return s
 }
 
-func opST(e *vlib.Env, r *rtr, ov [2]*int, cs []call) {
+func opST(e *sink, r *rtr, ov [2]*int, cs []call) {
 	ans, _ := vlib.Safe(r.state)
 	tag := "st/" + orderClass(cs)
 	if !hasCall(cs, "P") || !hasCall(cs, "I") {
@@ -647,6 +722,20 @@ func runC11(e *vlib.Env) {
 		opVR(e, s)
 	}
 
+	var jobs []job
+	// seqJob: build a router through cs and resolve the (pre-generated) packets
+	seqJob := func(ov [2]*int, cs []call, reuse bool, pkts []*pkt, how string, withState bool) {
+		jobs = append(jobs, func(w *worker, sk *sink) {
+			rt := build(w, ov, cs, reuse, 0, 0, 8)
+			if withState {
+				opST(sk, rt, ov, cs)
+			}
+			for _, p := range pkts {
+				opRS(sk, rt, ov, cs, p, how)
+			}
+		})
+	}
+
 	// (2) every permutation of the start-up calls x range kinds
 	base := []string{"P", "I", "E", "N", "K"}
 	perms := permutations(base)
@@ -662,24 +751,27 @@ func runC11(e *vlib.Env) {
 			if !legal(cs, reuse) {
 				reuse = true
 			}
-			rt := build(ov, cs, reuse, 0, 0, 8)
-			opST(e, rt, ov, cs)
 			s, en, _ := configured(ov, cs)
-			for k := 0; k < 5; k++ {
-				p := genPkt(r, pickPort(r, s, en), s, en)
-				opRS(e, rt, ov, cs, p, "permutation")
+			var pkts []*pkt
+			for k := 0; k < 8; k++ {
+				pkts = append(pkts, genPkt(r, pickPort(r, s, en), s, en, cs))
 			}
+			seqJob(ov, cs, reuse, pkts, "permutation", true)
 		}
 	}
 
 	// (3) random call sequences
 	pool := []string{"P", "P'", "I", "I", "E", "E2", "N", "N2", "K", "A", "A", "A", "D", "P"}
-	n := e.N(2500, 40000)
+	n := e.N(2500, 30000)
 	for i := 0; i < n; i++ {
 		ln := 1 + r.Intn(9)
 		kinds := make([]string, ln)
 		for j := range kinds {
 			kinds[j] = pool[r.Intn(len(pool))]
+		}
+		if r.Chance(85) { // mostly with an internal link, somewhere
+			at := r.Intn(len(kinds) + 1)
+			kinds = append(kinds[:at], append([]string{"I"}, kinds[at:]...)...)
 		}
 		rg := genRange(r)
 		ov := genOverride(r)
@@ -698,16 +790,15 @@ func runC11(e *vlib.Env) {
 		if !legal(cs, reuse) {
 			reuse = true
 		}
-		rt := build(ov, cs, reuse, 0, 0, 8)
-		opST(e, rt, ov, cs)
 		s, en, ok := configured(ov, cs)
 		if !ok {
 			s, en = rg.s, rg.e
 		}
-		for k := 0; k < 4; k++ {
-			p := genPkt(r, pickPort(r, s, en), s, en)
-			opRS(e, rt, ov, cs, p, "random-sequence")
+		var pkts []*pkt
+		for k := 0; k < 6; k++ {
+			pkts = append(pkts, genPkt(r, pickPort(r, s, en), s, en, cs))
 		}
+		seqJob(ov, cs, reuse, pkts, "random-sequence", true)
 	}
 
 	// (4) port sweeps on one router per range kind, both orders
@@ -717,7 +808,6 @@ func runC11(e *vlib.Env) {
 		for _, kinds := range [][]string{{"P", "I"}, {"I", "P"}, {"P'", "I", "E", "P"}} {
 			cs := mkCalls(r, kinds, rg)
 			ov := [2]*int{nil, nil}
-			rt := build(ov, cs, true, 0, 0, 8)
 			ports := boundaryPorts(rg.s, rg.e)
 			if e.Thorough() {
 				ports = nil
@@ -729,24 +819,26 @@ func runC11(e *vlib.Env) {
 					ports = append(ports, r.Intn(65536))
 				}
 			}
+			var pkts []*pkt
 			for _, port := range ports {
 				ks := sweepKinds
 				if e.Thorough() && port%64 != 0 && !isBoundary(port, rg.s, rg.e) {
 					ks = sweepKinds[:1]
 				}
 				for _, k := range ks {
-					p := mkPkt(r, k, port, routableDst(r))
-					opRS(e, rt, ov, cs, p, "port-sweep")
+					pkts = append(pkts, mkPkt(r, k, port, routableDst(r)))
 				}
 			}
+			seqJob(ov, cs, true, pkts, "port-sweep", false)
 		}
 	}
 
 	// (5) the real start-up path
-	nb := e.N(60, 600)
+	nb := e.N(80, 800)
 	for i := 0; i < nb; i++ {
-		bootCase(e, r, i)
+		jobs = append(jobs, bootCase(r))
 	}
+	runJobs(e, jobs)
 }
 
 func isBoundary(p, s, e int) bool {
@@ -772,7 +864,7 @@ func boundaryPorts(s, e int) []int {
 // ---------------------------------------------------------------------------------------------
 // validatePortRange through the topology loader
 
-func topoJSON(dispatched *string) string {
+func topoJSON(dispatched *string, alias string) string {
 	dp := ""
 	if dispatched != nil {
 		dp = fmt.Sprintf("  \"dispatched_ports\": %s,\n", strconv.Quote(*dispatched))
@@ -785,7 +877,7 @@ func topoJSON(dispatched *string) string {
       "interfaces": {
         "1": {"underlay": {"local": "192.0.2.1:40001", "remote": "192.0.2.11:50000"},
               "isd_as": "1-ff00:0:120", "link_to": "CORE", "mtu": 1472},
-        "3": {"underlay": {"provider": "verifcfg2", "local": "192.0.2.1:40003", "remote": "192.0.2.13:50000"},
+        "3": {"underlay": {"provider": "` + alias + `", "local": "192.0.2.1:40003", "remote": "192.0.2.13:50000"},
               "isd_as": "1-ff00:0:130", "link_to": "CORE", "mtu": 1472}
       }
     },
@@ -865,7 +957,7 @@ func rangeStrings(r *vlib.Rand, n int) []string {
 
 func opVR(e *vlib.Env, s string) {
 	ans, _ := vlib.Safe(func() string {
-		t, err := topology.FromJSONBytes([]byte(topoJSON(&s)))
+		t, err := topology.FromJSONBytes([]byte(topoJSON(&s, aliasUL)))
 		if err != nil {
 			return "err"
 		}
@@ -897,13 +989,13 @@ type booted struct {
 	batch int
 }
 
-func boot(dispatched *string, ov [2]*int, rcv, snd, batch int, reuse bool) (*booted, error) {
+func boot(w *worker, dispatched *string, ov [2]*int, rcv, snd, batch int, reuse bool) (*booted, error) {
 	dir, err := os.MkdirTemp("", "rcfg-boot")
 	if err != nil {
 		return nil, err
 	}
 	defer os.RemoveAll(dir)
-	if err := os.WriteFile(filepath.Join(dir, "topology.json"), []byte(topoJSON(dispatched)), 0o644); err != nil {
+	if err := os.WriteFile(filepath.Join(dir, "topology.json"), []byte(topoJSON(dispatched, w.alias)), 0o644); err != nil {
 		return nil, err
 	}
 	_ = os.Mkdir(filepath.Join(dir, "keys"), 0o755)
@@ -933,8 +1025,8 @@ func boot(dispatched *string, ov [2]*int, rcv, snd, batch int, reuse bool) (*boo
 	if err != nil {
 		return nil, fmt.Errorf("loadconfig: %w", err)
 	}
-	rt := newRouter(cfg.Router, reuse)
-	rt.firstUL[aliasUL] = "ext"
+	rt := newRouter(w, cfg.Router, reuse)
+	rt.firstUL[w.alias] = "ext"
 	iac := &control.IACtx{Config: cc, DP: rt.c}
 	if err := iac.Configure(); err != nil {
 		return nil, fmt.Errorf("configure: %w", err)
@@ -948,15 +1040,20 @@ func boot(dispatched *string, ov [2]*int, rcv, snd, batch int, reuse bool) (*boo
 	if !ok {
 		return nil, fmt.Errorf("boot with undocumented range text %q", text)
 	}
-	b.calls = []call{{kind: "K"}, {kind: "I"}, {kind: "E"}, {kind: "N"}, {kind: "E2"},
+	b.calls = bootCalls(s, en)
+	return b, nil
+}
+
+// bootCalls is the call sequence ConfigDataplane issues for topoJSON.
+func bootCalls(s, en int) []call {
+	return []call{{kind: "K"}, {kind: "I"}, {kind: "E"}, {kind: "N"}, {kind: "E2"},
 		{kind: "A", svc: 1, ip: ip4(10, 0, 1, 1), port: 30252},
 		{kind: "A", svc: 2, ip: ip4(10, 0, 1, 1), port: 30252},
 		{kind: "A", svc: 2, ip: ip4(10, 0, 1, 2), port: 31006},
 		{kind: "P", s: s, e: en}}
-	return b, nil
 }
 
-func bootCase(e *vlib.Env, r *vlib.Rand, i int) {
+func bootCase(r *vlib.Rand) job {
 	rg := genRange(r)
 	for rg.text == "" {
 		rg = genRange(r)
@@ -966,22 +1063,29 @@ func bootCase(e *vlib.Env, r *vlib.Rand, i int) {
 		disp = &rg.text
 	}
 	ov := genOverride(r)
-	b, err := boot(disp, ov, 0, 0, 8, r.Bool())
-	if err != nil {
-		panic(err)
-	}
-	opST(e, b.rt, ov, b.calls)
-	s, en, _ := configured(ov, b.calls)
+	reuse := r.Bool()
+	calls := bootCalls(rg.s, rg.e)
+	s, en, _ := configured(ov, calls)
+	var pkts []*pkt
 	for k := 0; k < 12; k++ {
-		p := genPkt(r, pickPort(r, s, en), s, en)
-		opRS(e, b.rt, ov, b.calls, p, "real-startup(topology.json dispatched_ports="+rg.text+")")
+		pkts = append(pkts, genPkt(r, pickPort(r, s, en), s, en, calls))
+	}
+	return func(w *worker, sk *sink) {
+		b, err := boot(w, disp, ov, 0, 0, 8, reuse)
+		if err != nil {
+			panic(err)
+		}
+		opST(sk, b.rt, ov, b.calls)
+		for _, p := range pkts {
+			opRS(sk, b.rt, ov, b.calls, p, "real-startup(topology.json dispatched_ports="+rg.text+")")
+		}
 	}
 }
 
 // ---------------------------------------------------------------------------------------------
 // C17
 
-func checkSockets(e *vlib.Env, rt *rtr, rcv, snd, batch int, how string, cs []call) {
+func checkSockets(e *sink, rt *rtr, rcv, snd, batch int, how string, cs []call) {
 	for _, o := range rt.log {
 		site := rt.firstUL[o.Underlay]
 		openk := "conn"
@@ -1054,7 +1158,8 @@ func runC17(e *vlib.Env) {
 		"ConnOpener records the conn.Config of every socket; non-trivial = receive != send; distinct by " +
 		"(site, link kind, sizes)"
 	pool := []string{"I", "E", "E", "E2", "E2", "N", "N2", "N2", "P", "K", "A"}
-	n := e.N(4000, 60000)
+	var jobs []job
+	n := e.N(3000, 60000)
 	for i := 0; i < n; i++ {
 		rcv, snd, batch := genSize(r), genSize(r), 1+r.Intn(256)
 		if r.Chance(3) {
@@ -1073,24 +1178,39 @@ func runC17(e *vlib.Env) {
 		if !legal(cs, reuse) {
 			reuse = true
 		}
-		rt := build([2]*int{nil, nil}, cs, reuse, rcv, snd, batch)
-		checkSockets(e, rt, rcv, snd, batch, "direct configuration calls", cs)
+		jobs = append(jobs, func(w *worker, sk *sink) {
+			rt := build(w, [2]*int{nil, nil}, cs, reuse, rcv, snd, batch)
+			checkSockets(sk, rt, rcv, snd, batch, "direct configuration calls", cs)
+		})
 	}
-	nb := e.N(80, 800)
+	nb := e.N(100, 1000)
 	for i := 0; i < nb; i++ {
 		rcv, snd, batch := genSize(r), genSize(r), 1+r.Intn(256)
-		all := "all"
-		b, err := boot(&all, [2]*int{nil, nil}, rcv, snd, batch, r.Bool())
-		if err != nil {
-			panic(err)
-		}
-		checkSockets(e, b.rt, rcv, snd, batch, "real start-up (router TOML receive_buffer_size/send_buffer_size)", b.calls)
+		reuse := r.Bool()
+		jobs = append(jobs, func(w *worker, sk *sink) {
+			all := "all"
+			b, err := boot(w, &all, [2]*int{nil, nil}, rcv, snd, batch, reuse)
+			if err != nil {
+				panic(err)
+			}
+			checkSockets(sk, b.rt, rcv, snd, batch,
+				"real start-up (router TOML receive_buffer_size/send_buffer_size)", b.calls)
+		})
 	}
+	runJobs(e, jobs)
 }
 
 func main() {
 	e := vlib.Init()
-	udpip.VerifCfgRegisterAlias(aliasUL, aliasSpy)
+	// NewConnector copies the 1.6 MB dataPlane value several times; keep the collector (and its
+	// write barriers) out of the way
+	debug.SetGCPercent(1000)
+	if pf := os.Getenv("RCFG_PROF"); pf != "" {
+		f, _ := os.Create(pf)
+		_ = pprof.StartCPUProfile(f)
+		defer pprof.StopCPUProfile()
+	}
+	initWorkers()
 	switch e.Prop {
 	case "C11":
 		runC11(e)
